@@ -330,7 +330,7 @@ static void hang_abort(Node& n, int idx, OpExec& x) {
 	W.rr->violations.push_back(v);
 	Violation u = v; u.prop = "C18"; u.clause = "no-undefined-behaviour"; W.rr->violations.push_back(u);
 	n.alive = false; n.T.prev_known = false; W.rr->aborted = true;
-	arm_run_timer(10);
+	arm_run_timer(5);
 	g_stats.hit("calls_abandoned_by_watchdog");
 }
 
@@ -543,7 +543,7 @@ static void deliver(int count, int op_index) {
 
 RunResult execute_case(const Case& c, const ExecMode& mode) {
 	RunResult rr;
-	arm_run_timer(8);
+	arm_run_timer(2);
 	if (!g_info) g_info = sut_info();
 	if (!W.arena) {
 		W.slot_size = (g_info->inst_size + 127u) & ~static_cast<size_t>(63);
@@ -693,6 +693,7 @@ EvalResult evaluate_case(const Case& c) {
 	RunResult r0 = execute_case(c, base);
 	er.violations = r0.violations; er.digest_full = r0.digest_full; er.digest_neutral = r0.digest_neutral; er.nontrivial = r0.nontrivial;
 	++g_stats.runs;
+	if (r0.aborted) return er;      // a call was abandoned by the watchdog: the differential executions would only hang again
 	// 1. the same case in memory with different prior contents
 	ExecMode m1; m1.fill_override = (c.fill + 1 + static_cast<int>(c.paint % 3)) % 4;
 	RunResult r1 = execute_case(c, m1);
